@@ -18,6 +18,11 @@ CONFIGS = {
     ('aperture 4 endpoints, min_size = max_size = 2, members going down',
      {'kind': 'aperture', 'n': 4, 'min_size': 2, 'max_size': 2, 'ops': ['D', 'C', 'Down', 'Up', 'Adv', 'Leave'], 'advs': [1], 'max_out': 3,
       'max_down': 2, 'max_notifications': 1}, 6),
+    ('heap 3 endpoints, closing a departing member\'s channel fails once', {'kind': 'heap', 'n': 3, 'ops': ['D', 'C', 'Join', 'Leave', 'LeaveX'],
+                                                                            'max_out': 2, 'max_notifications': 4, 'probe': True}, 6),
+    ('aperture 3 endpoints, closing a departing member\'s channel fails once', {'kind': 'aperture', 'n': 3, 'min_size': 2,
+                                                                                'ops': ['D', 'C', 'Join', 'Leave', 'LeaveX'],
+                                                                                'max_out': 2, 'max_notifications': 4}, 6),
     ('heap 3 endpoints addressed by a named additional endpoint', {'kind': 'heap', 'n': 2, 'extra': 1, 'ops': NOTIF, 'dup_ops': True,
                                                                    'endpoint_name': 'thrift', 'max_out': 2, 'probe': True}, 6),
     ('heap notifications during loading', {'kind': 'heap', 'n': 2, 'extra': 1, 'ops': ['Join', 'Leave', 'Gate', 'D', 'C'],
